@@ -9,6 +9,7 @@ git -C /repo diff --quiet || { echo "refusing: /repo has uncommitted changes"; e
 for d in seeded/*/; do
   id=$(basename "$d")
   checks=$(python3 -c "import json,sys; m=json.load(open('$d/meta.json')); print(' '.join(dict.fromkeys([m['property']]+[c['check'] for c in m['caught_by']])))")
+  if python3 -c "import json,sys; sys.exit(0 if json.load(open('$d/meta.json')).get('retired') else 1)"; then echo "$id: RETIRED (see meta.json)"; continue; fi
   need=$(python3 -c "import json; print(json.load(open('$d/meta.json')).get('needs_tier','quick'))")
   if [ "$need" = thorough ] && [ "$TIER" = quick ]; then echo "$id: SKIPPED (only the thorough tier reaches it)"; continue; fi
   git -C /repo apply "$PWD/$d/patch.diff" || { echo "$id: PATCH DOES NOT APPLY"; miss=$((miss+1)); continue; }
